@@ -269,6 +269,8 @@ pub struct Host {
     pub mtu: usize,
     pub ip_mtu: usize,
     pub ip: [u8; 4],
+    /// further addresses of the interface (see add_ip)
+    pub extra_ips: Vec<[u8; 4]>,
     pub mac: [u8; 6],
     pub peers: Vec<([u8; 4], [u8; 6])>,
     pub now_us: i64,
@@ -302,6 +304,12 @@ fn ip4s(a: [u8; 4]) -> String {
 }
 
 impl Host {
+    /// Give the interface one more address (same /24): datagrams may be sent to either.
+    pub fn add_ip(&mut self, ip: [u8; 4]) {
+        self.node.add_addr(IpCidr::new(Ip::V4(ip).to_smol(), 24));
+        self.extra_ips.push(ip);
+    }
+
     /// `ip_mtu` is the IP MTU; the device MTU adds the Ethernet header.
     pub fn new(name: &'static str, eth: bool, ip_mtu: usize, ip: [u8; 4], mac: [u8; 6], seed: u64) -> Host {
         let mtu = if eth { ip_mtu + 14 } else { ip_mtu };
@@ -337,6 +345,7 @@ impl Host {
             mtu,
             ip_mtu,
             ip,
+            extra_ips: vec![],
             mac,
             peers: vec![],
             now_us: 0,
@@ -687,7 +696,7 @@ impl Host {
             if ipb.len() > self.ip_mtu {
                 return Err(Fail::new("egress:frame-exceeds-mtu", format!("{} emitted an IP packet of {} bytes, IP MTU is {}", self.name, ipb.len(), self.ip_mtu)));
             }
-            if p.src != self.ip {
+            if p.src != self.ip && !self.extra_ips.contains(&p.src) {
                 return Err(Fail::new("egress:foreign-source-address", format!("{} emitted a packet from {}", self.name, ip4s(p.src))));
             }
             let key: FragKey = (p.src, p.dst, p.proto, p.id);
